@@ -88,6 +88,10 @@ class C08(Prop):
         est = gs.make_estimator(sys, w=np.array(case["w"]))
         opt = case["opt"]
         optin = np.array(opt) if isinstance(opt, list) else opt
+        # warm-ups: the same system with another tolerance, and a sibling system (other baseline), must leave no trace in the call that is judged
+        Bw = np.asarray(case["b"])[None]
+        gs.warm(lambda: est.fit_underdetermined(Bw, underdetermined_opt=optin, l2_eps=(1e-2 if case["l2_eps"] < 1e-3 else 1e-6), **HI))
+        gs.warm(lambda: gs.make_estimator(gs.sibling(sys), w=np.array(case["w"])).fit_underdetermined(Bw + 0.75, underdetermined_opt=optin, l2_eps=case["l2_eps"], **HI))
         X, Bp = est.fit_underdetermined(np.asarray(case["b"])[None], underdetermined_opt=optin, l2_eps=case["l2_eps"], **HI)
         return {"X": np.asarray(X, dtype=float)[0].tolist(), "Bpred": np.asarray(Bp, dtype=float)[0].tolist()}
 
